@@ -644,6 +644,9 @@ func (g *Gen) runDefers(st *State, x *ssa.RunDefers) {
 	for i := len(g.defers) - 1; i >= 0; i-- {
 		d := g.defers[i]
 		if !d.Block().Dominates(x.Block()) {
+			if !blockReaches(d.Block(), x.Block()) {
+				continue // this exit is not downstream of the defer statement (an earlier return): it was never registered here
+			}
 			g.refusef("conditional defer")
 			return
 		}
@@ -652,6 +655,25 @@ func (g *Gen) runDefers(st *State, x *ssa.RunDefers) {
 }
 
 var _ = strings.Join
+
+// blockReaches: some path of the control-flow graph leads from a to b.
+func blockReaches(a, b *ssa.BasicBlock) bool {
+	seen := map[*ssa.BasicBlock]bool{}
+	stack := []*ssa.BasicBlock{a}
+	for len(stack) > 0 {
+		x := stack[len(stack)-1]
+		stack = stack[:len(stack)-1]
+		if x == b {
+			return true
+		}
+		if seen[x] {
+			continue
+		}
+		seen[x] = true
+		stack = append(stack, x.Succs...)
+	}
+	return false
+}
 
 // bitOp folds constant operands and otherwise applies an uninterpreted function with a few sound axioms.
 func (g *Gen) bitOp(op, a, b string) string {
